@@ -332,22 +332,31 @@ deriving Repr, DecidableEq, Inhabited
 /-- "upgrade" -/
 def sUpgradeTok : Bytes := [117, 112, 103, 114, 97, 100, 101]
 
+/-- `0 != (status_code & MHD_ICY_FLAG)` -/
+def icyOf (statusCode : Nat) : Bool := statusCode / Mhd.Gen.Reply.icyFlag % 2 == 1
+/-- `status_code &= ~MHD_ICY_FLAG` -/
+def codeOf (statusCode : Nat) : Nat :=
+  if icyOf statusCode then statusCode - Mhd.Gen.Reply.icyFlag else statusCode
+
+/-- `MHD_str_has_s_token_caseless_ (response->first_header->value, "upgrade")` -/
+def firstHasUpgrade (r : Resp) : Bool :=
+  match r.hdrs.head? with
+  | some h => hasTokenCaseless h.value sUpgradeTok
+  | none => false
+
 /-- `MHD_queue_response` for a non-threaded daemon: `none` = MHD_NO.
     `hasResponse` = a response is already queued; `shutdown`, `allowUpgrade` are daemon facts. -/
 def queueResponse (c : Conn) (st : CState) (hasResponse shutdown allowUpgrade : Bool)
     (statusCode : Nat) (r : Resp) : Option Queued :=
-  let icy := statusCode / Mhd.Gen.Reply.icyFlag % 2 == 1
-  let code := if icy then statusCode - Mhd.Gen.Reply.icyFlag else statusCode
+  let icy := icyOf statusCode
+  let code := codeOf statusCode
   if hasResponse then none
   else if st == .other then none
   else if shutdown then none
   else if r.upgrade && ! allowUpgrade then none
   else if r.upgrade && (code : Int) != Mhd.Gen.Reply.httpSwitchingProtocols then none
   else if r.upgrade && ! r.fa.connHdr then none
-  else if r.upgrade &&
-      ! (match r.hdrs.head? with
-         | some h => hasTokenCaseless h.value sUpgradeTok
-         | none => false) then none
+  else if r.upgrade && ! firstHasUpgrade r then none
   else if r.upgrade && ! ver11Compat c.ver then none
   else if (code : Int) == Mhd.Gen.Reply.httpSwitchingProtocols && ! r.upgrade then none
   else if 100 > code || 999 < code then none
